@@ -144,6 +144,37 @@ HARNESSES = [
          bound="ctx->options: every word PRS() can produce; -b superblock, -B blocksize, interactive, -z undo file, mount flags, "
                "profile old_bitmaps, fix_problem/ask_yn answers, backup-superblock search result: symbolic; every ext2fs_open2 "
                "fails with the query's error code (8 codes)"),
+    dict(name="main_resize", src="main_resize.c",
+         extra_src=["lib/ext2fs/blknum.c"],
+         funcs=["vf_real_main", "vf_getopt"],
+         configs=[{"ARGS": a} for a in (1, 2, 3, 4, 5, 6)] + [{"ARGS": a, "OPEN_OK": None} for a in (1, 2, 4, 6)] +
+                 [{"ARGS": a} for a in (10, 11, 12)],
+         unwind=8, unwindset=["vf_getopt.0:16", "vf_real_main.0:8", "vf_real_main.1:3"],
+         backends=["default", "kissat"],
+         bound="argv: {-P d}, {-fP d}, {-P -F d}, {-P -z u d}, {-PM d}, {-pP d 100} (+ controls {d}, {-f d 100}, {-M d}); mount flags, "
+               "file type, open/fstat/sync/undo failures symbolic; OPEN_OK queries: superblock state/check fields symbolic"),
+    dict(name="prs_e2fsck", src="prs_e2fsck.c",
+         funcs=["PRS", "vf_getopt"],
+         configs=[{"ARGS": a} for a in (1, 2, 3, 4, 5, 6, 7, 8, 9, 10, 11, 20, 21, 22, 23, 24, 25, 26)],
+         unwind=8, unwindset=["vf_getopt.0:40", "PRS.0:8", "strlen.0:10", "strcpy.0:10", "strchr.0:10", "strcmp.0:10",
+                              "strncmp.0:10", "parse_extended_opts.0:4", "parse_extended_opts.1:10", "memset.0:130"],
+         backends=["default", "kissat"],
+         bound="18 argv sets: -n, -fn, -n -f -v, -p, -y, -f, -pf, -n -F, -n -E discard, -n -z u, (none); conflicting: -n -p, -p -n, "
+               "-y -n, -n -D, -nc, -n -l f, -a -n; tty, profile answers, memory size symbolic"),
+    dict(name="main_e2fsck_full", src="main_e2fsck_full.c",
+         cut_statics={"e2fsck/unix.c": ["PRS", "show_stats", "check_if_skip", "e2fsck_check_mmp"]},
+         extra_src=["lib/ext2fs/blknum.c"], extra_harness_src=["C13/super_unit.c"],
+         funcs=["vf_real_main", "try_open_fs", "check_mount", "check_backup_super_block"],
+         configs=[{"RST": 0}, {"RST": 1}, {"RST": 2}, {"RST": 3}],
+         unwind=4, unwindset=["try_open_fs.0:9", "reserve_stdio_fds.0:3", "fix_problem.0:13", "memcmp.0:17",
+                              "check_backup_super_block.0:3",
+                              "vf_real_main.0:3", "vf_real_main.1:3", "vf_real_main.2:2", "vf_real_main.3:2", "vf_real_main.4:4",
+                              "vf_real_main.5:2", "vf_real_main.6:2", "vf_real_main.7:34", "vf_real_main.8:5", "vf_real_main.9:2",
+                              "vf_real_main.10:2", "vf_real_main.11:5", "vf_real_main.12:2"],
+         backends=["default", "kissat"],
+         bound="one pass through main() per restart reason; ctx->options: every word PRS() can produce without -c/-l/-t; 2 groups; "
+               "primary and backup superblock state/feature/geometry/UUID fields, mount flags, results of every stubbed pass and "
+               "helper, 12 fix_problem answers: symbolic"),
 ]
 MANIFEST = {
     "text": "Library-level slice, bounded-exhaustive over the flag word: for every value of fs->flags without EXT2_FLAG_RW the "
